@@ -19,8 +19,8 @@ VARIANTS = [
     ("split-accept-eof-flipped", "C01", S, "m = self._next_mark(accept_eof=False)\n            if m.group(0) == \"{\":", "m = self._next_mark(accept_eof=True)\n            if m.group(0) == \"{\":", "fire"),
     ("split-except-narrowed", "C01", S, "except BlockAbortedException as e:", "except RegexMismatchException as e:", "fire"),
     ("split-value-quote-in-braces", "C02", S, "if next_mark.group(0) == '\"' and not num_open_curls > 0:", "if next_mark.group(0) == '\"':", "fire"),
-    ("split-value-brace-in-quote", "C02", S, 'elif next_mark.group(0) == "{" and not currently_quote_escaped:', 'elif next_mark.group(0) == "{":', "fire"),
-    ("split-value-close-ge", "C02", S, 'elif next_mark.group(0) == "}" and not currently_quote_escaped and num_open_curls > 0:', 'elif next_mark.group(0) == "}" and not currently_quote_escaped and num_open_curls > 1:', "fire"),
+    ("split-value-brace-ignored-in-quote", "C02", S, 'elif next_mark.group(0) == "{":', 'elif next_mark.group(0) == "{" and not currently_quote_escaped:', "fire"),
+    ("split-value-close-ge", "C02", S, 'elif next_mark.group(0) == "}" and num_open_curls > 0:', 'elif next_mark.group(0) == "}" and num_open_curls > 1:', "fire"),
     ("split-brace-depth-slip", "C02", S, "if num_additional_brackets == 0:\n                    return m.start()", "if num_additional_brackets <= 1:\n                    return m.start()", "fire"),
     ("split-key-from-wrong-mark", "C02", S, "key = self.bibstr[m.end() + 1 : comma_mark.start()].strip()\n            fields, end_index, duplicate_keys = self._move_to_end_of_entry", "key = self.bibstr[m.end() : comma_mark.start()].strip()\n            fields, end_index, duplicate_keys = self._move_to_end_of_entry", "fire"),
     ("split-value-not-stripped", "C02", S, "value = self.bibstr[value_start:value_end].strip()", "value = self.bibstr[value_start:value_end]", "fire"),
@@ -43,7 +43,7 @@ VARIANTS = [
     # ---- behaviour-preserving
     ("benign-rename-locals", P, S, "num_additional_brackets", "extra_depth", "silent", []) if False else
     ("benign-message-change", P, S, "Unexpectedly reached end of file.", "Unexpected end of input while inside a block.", "silent"),
-    ("benign-ge-one", P, S, "elif next_mark.group(0) == \"}\" and not currently_quote_escaped and num_open_curls > 0:", "elif next_mark.group(0) == \"}\" and not currently_quote_escaped and num_open_curls >= 1:", "silent"),
+    ("benign-ge-one", P, S, "elif next_mark.group(0) == \"}\" and num_open_curls > 0:", "elif next_mark.group(0) == \"}\" and num_open_curls >= 1:", "silent"),
     ("benign-end-instead-of-start-plus-one", P, S, "raw=self.bibstr[start_index : end_bracket_index + 1],", "raw=self.bibstr[start_index : end_bracket_index + 2 - 1],", "silent"),
     ("benign-not-eq-to-positive", P, S, "                if num_additional_brackets == 0:\n                    return m.start()\n                else:\n                    num_additional_brackets -= 1", "                if num_additional_brackets != 0:\n                    num_additional_brackets -= 1\n                else:\n                    return m.start()", "silent"),
     ("benign-regex-reordered", P, S, '(?<!\\\\)[\\{\\}\\",=]|\\n|@[\\w]*( |\\t)*(?={)', '\\n|(?<!\\\\)[=,\\"\\}\\{]|@\\w*[ \\t]*(?=\\{)', "silent"),
